@@ -627,6 +627,17 @@ fn sigs() {{
 """
                     self.add("C19", f"sigs:{sname}:str={sm}:iter={im}", "accept", s, extra=extra)
 
+        # a requested struct name that is also the name of something the generated constructor bodies import
+        # (finding D10: `use ::core::iter::Iterator;` / `Option::Some` inside `iter()`, `range()`, `names()`)
+        for sn in ("Iterator", "IntoIterator", "Some", "None", "Ok", "Err", "Option", "Result", "Copy", "From", "DoubleEndedIterator"):
+            for sname, r, vals, modes in (("gapless", "u8", GAPLESS, ("range", "table", "next_and_back", "table_inline")),
+                                          ("holes", "i8", HOLES, ("table", "next_and_back", "table_inline"))):
+                for mode in modes:
+                    feats = [("iter", {"struct_name": sn, "mode": mode}), ("names", {"struct_name": "Some" if sn != "Some" else "Iterator"})]
+                    if mode != "table_inline":
+                        feats.append(("range", {}))
+                    self.add("C15", f"struct-name-collision:{sn}:{mode}:{sname}", "accept", simple_enum("", r, vals, feats))
+
     # ---- C16: no_std / no prelude / shadowing (compile side; the run side is the hostile harness)
     def fam_c16(self):
         for sname, r, vals in (("gapless", "i8", GAPLESS), ("holes", "i16", HOLES_NEG)):
